@@ -917,11 +917,8 @@ impl<'a> Checker<'a> {
 		for e in run.entries.iter() {
 			if let EOp::Persist { id, .. } = &e.op {
 				// a crash after the last store operation of a call may be a crash after its return
-				if e.ok && e.log_end <= p && e.log_end > e.log_start {
+				if e.ok && e.log_end <= p {
 					j_completed = Some(j_completed.map_or(*id, |x: u64| x.max(*id)));
-				}
-				if e.ok && e.log_end <= p && e.log_end == e.log_start {
-					return Err(self.fail("completed-without-store-op", format!("a persist call at id {} returned Completed without touching the store", id)));
 				}
 				if e.log_start < p {
 					max_started = Some(max_started.map_or(*id, |x: u64| x.max(*id)));
